@@ -36,6 +36,11 @@ def cases():
     C.append(('channel-manual-error-c0', dict(kind='channel', down=1, up=2, pub='manual', cancel_after=0, credit='max', ending='error')))
     C.append(('channel-manual-error-c1', dict(kind='channel', down=2, up=2, pub='manual', cancel_after=1, credit='one', ending='error')))
     C.append(('stream-manual-error-c1', dict(kind='stream', down=2, pub='manual', cancel_after=1, credit='one', ending='error')))
+    # cancel() called from inside on_next ("take(k)"), with elements possibly following in the same read
+    for pub in ('manual', 'gen', 'agen', 'sync'):
+        C.append(('stream-%s-cancel-in-on_next1' % pub, dict(kind='stream', down=3, pub=pub, cancel_after=101, credit='max', ending='flag' if pub != 'manual' else 'complete')))
+        C.append(('channel-%s-cancel-in-on_next1' % pub, dict(kind='channel', down=3, up=1, pub=pub, cancel_after=101, credit='max', ending='flag' if pub != 'manual' else 'complete')))
+    C.append(('stream-gen-cancel-in-on_next-last', dict(kind='stream', down=2, pub='gen', cancel_after=102, credit='max', ending='flag')))
     # a producer that emits synchronously from inside request(n)
     C.append(('stream-sync-c1', dict(kind='stream', down=3, pub='sync', cancel_after=1, credit='one', ending='flag')))
     C.append(('channel-sync-c1', dict(kind='channel', down=3, up=2, pub='sync', cancel_after=1, credit='one', ending='flag')))
